@@ -319,7 +319,7 @@ def _maybe_cast_type(values, newval):
     """ cast rules (chosen so that no information is lost), especially
     useful for axis values.
     # a[:] = b : a.dtype.kind
-    # f4 <- f8 : f8 (same kind, wider items: also i, u)
+    # f4 <- f8 : f8 (same kind, wider items: also i, u, S, U)
     # i <- f : f
     # U <- S : U
     # S <- U : U
@@ -334,7 +334,8 @@ def _maybe_cast_type(values, newval):
     if values.dtype.kind == dtype.kind:
         # same kind: only make room for wider items (python numbers
         # have no size of their own, they adapt to the array like in numpy)
-        if dtype.itemsize > values.dtype.itemsize and hasattr(newval, 'dtype'):
+        if dtype.itemsize > values.dtype.itemsize \
+                and (hasattr(newval, 'dtype') or dtype.kind in 'US'):
             values = np.asarray(values, dtype=dtype)
     elif values.dtype.kind == 'O':
         pass # or already object
